@@ -138,6 +138,8 @@ def main(argv=None):
             print("VIOLATION property=%s replay=%s" % (prop, a.replay))
         return EXIT_VIOLATION if ok else EXIT_OK
 
+    if tier == 'thorough':
+        os.environ.setdefault('VERIF_XCHECK', '3')      # per configuration: re-decide 3 unsat queries with cvc5
     cfgs = mod.configs(tier, seed)
     idxs = [i for i, c in enumerate(cfgs) if not a.only or a.only in c.name]
     if a.list:
